@@ -16,13 +16,18 @@ REQUIRED_THEOREMS = [
     'C20_pd_nonnumeric_id_counterexample', 'C20_pdpredictive_default_nan_counterexample',
     'C20_falsy_observable_counterexample', 'C20_palette_every_individual', 'C20_palette_zip_counterexample', 'C20_prediction_scatter', 'C20_simulation', 'C20_prediction_dose', 'C20_band_encloses_any',
     'C20_band_encloses', 'C20_band_encloses_robust', 'C20_band_limits_are_samples', 'C20_band_nested',
-    'C20_band_ordered', 'C20_polygon_decode', 'C20_prediction_bands', 'C20_no_mutation',
+    'C20_band_ordered', 'C20_polygon_decode', 'C20_prediction_bands', 'C20_band_time_local',
+    'C20_band_ignores_other_times', 'C20_band_at_time', 'C20_band_mask_exact',
+    'C20_band_pooled_times_counterexample', 'C20_no_mutation',
     'C20_residual_routing', 'C20_residual_completes', 'C20_residual_legacy_partial',
     'C20_residual_readonly_counterexample']
 RULE = ('routing: long-format frames with 1-10 or (30 % of the frames) 11-26 individuals, i.e. more than any fixed-size table of chi.plots, (IDs int / float / str, some missing), 1-3 '
         'observables, interleaved rows, dose rows, missing values in every column, custom column keys, '
         'shuffled index, default / explicit / absent observable, all four figure classes + add_simulation; '
-        'bands: 1-4 times, 1-48 samples per time on a coarse grid (ties) or continuous, missing samples, '
+        'bands: 1-4 times on a grid, in 60 % of the sample sets with 1-4 further time points nearly coincident with '
+        'one of them (1 ulp ... 1e-3 relative, next to zero down to the smallest subnormal; distinct doubles are '
+        'distinct time points), location and spread of the samples differing between time points (70 %), '
+        '1-48 samples per time on a coarse grid (ties) or continuous, missing samples, '
         '1-7 bulk probabilities (dyadic, customary, random); residuals: measurement + prediction frames (IDs '
         'int / float / str / missing, missing times, integer-valued measurements, unmeasured observables), '
         'all flag combinations, every trace compared with an independent computation. non-trivial = >=2 individuals and >=2 observables (routing) / a tie or a '
@@ -499,19 +504,59 @@ PROBS_DYADIC = [k / 16 for k in range(1, 16)]
 PROBS_USUAL = [0.3, 0.5, 0.6, 0.8, 0.9, 0.95, 0.99, 0.05, 0.1]
 
 
+def near_time(rng, t):
+    """a time point DIFFERENT from t, between one unit in the last place and ~1e-3 (relative; absolute next to
+    zero) away from it: a grid that resolves an event with a point just before / after it, times that were
+    computed along two routes, a step of a fine solver output. Distinct doubles are distinct time points."""
+    sgn = 1.0 if (t == 0.0 or rng.random() < 0.5) else -1.0
+    kind = int(rng.integers(4))
+    if t == 0.0:
+        cand = float(rng.choice([5e-324, 1e-300, 1e-16, 1e-12, 5e-9, 1e-8, 1e-6, 1e-4]))
+    elif kind == 0:
+        cand = float(np.nextafter(t, t + sgn))
+        for _ in range(int(rng.integers(0, 4))):
+            cand = float(np.nextafter(cand, cand + sgn))
+    elif kind == 1:
+        cand = t * (1.0 + sgn * 10.0 ** (-float(rng.uniform(3.0, 15.5))))
+    elif kind == 2:
+        cand = t + sgn * float(rng.choice([1e-3, 1e-4, 1e-5, 1e-6, 1e-7, 1e-8, 1e-9, 1e-10, 1e-12]))
+    else:
+        cand = t + sgn * 10.0 ** (-float(rng.uniform(3.0, 13.0)))
+    cand = float(cand)
+    if cand == t or cand < 0.0:
+        cand = float(np.nextafter(t, np.inf))
+    return cand
+
+
 def gen_samples(rng):
     n_times = int(rng.integers(1, 5))
     times = [float(t) for t in np.sort(rng.choice(np.arange(0, 40) * 0.5, n_times, replace=False))]
+    # time axis: well separated grid points, or (regularly) clusters of 2-3 nearly coincident, distinct points
+    tmode = ['plain', 'plain', 'near', 'near', 'near'][int(rng.integers(5))]
+    if tmode == 'near':
+        for t in [times[int(j)] for j in rng.choice(len(times), int(rng.integers(1, min(2, len(times)) + 1)),
+                                                     replace=False)]:
+            for _ in range(int(rng.choice([1, 1, 1, 2]))):
+                c = near_time(rng, t)
+                if c not in times:
+                    times.append(c)
+        if rng.random() < 0.5:
+            times = sorted(times)
     mode = ['grid', 'grid', 'cont', 'pow2'][int(rng.integers(4))]
+    # the sample distribution differs from time point to time point (location and spread), as that of a
+    # response over time does
+    vary = bool(rng.random() < 0.7)
     rows = []
     for t in times:
         n = int(rng.integers(1, 49))
         if mode == 'pow2':
             n = int(2 ** rng.integers(0, 6))
+        loc = float(rng.choice([0.0, 0.0, 2.5, 6.0, 20.0, -4.0])) if vary else 0.0
+        scale = float(rng.choice([1.0, 1.0, 0.0625, 4.0])) if vary else 1.0
         if mode == 'cont':
-            xs = [float(v) for v in rng.lognormal(0.0, 1.0, n)]
+            xs = [loc + scale * float(v) for v in rng.lognormal(0.0, 1.0, n)]
         else:
-            xs = [float(v) * 0.5 for v in rng.integers(0, int(rng.integers(2, 12)), n)]
+            xs = [loc + scale * float(v) * 0.5 for v in rng.integers(0, int(rng.integers(2, 12)), n)]
         for x in xs:
             rows.append([t, 'main', x])
     for _ in range(int(rng.integers(0, 6))):
@@ -538,7 +583,7 @@ def gen_samples(rng):
     _, lab = label_pool(rng, 2)
     if rng.random() < 0.5:
         lab = ['main', 'other']
-    return {'rows': rows, 'doses': doses, 'ps': ps, 'mode': mode, 'keys': keys,
+    return {'rows': rows, 'doses': doses, 'ps': ps, 'mode': mode, 'tmode': tmode, 'keys': keys,
             'labels': {'main': lab[0], 'other': lab[1]},
             'index': [int(v) for v in rng.permutation(len(rows) + len(doses)) + 1] if rng.random() < 0.3 else None}
 
@@ -606,11 +651,35 @@ def band_case(ctx, chi, g, k):
             utimes.append(t)
     samples = {t: [x for tt, x in main if tt == t and x is not None] for t in utimes}
     has_tie = any(len(set(v)) < len(v) for v in samples.values())
+    # smallest gap between two different time points of the frame, relative to the larger one
+    gaps = [abs(a - b) / max(abs(a), abs(b)) for i, a in enumerate(utimes) for b in utimes[:i]]
+    gap = min(gaps) if gaps else float('inf')
+    gcls = 'none' if gap > 1e-2 else ('<=1e-12' if gap <= 1e-12 else '<=1e-8' if gap <= 1e-8 else
+                                      '<=1e-5' if gap <= 1e-5 else '<=1e-2')
     ctx.case('band:%s/np%d' % (g['mode'], len(g['ps'])),
-             nontrivial=False, sample=inp)
+             nontrivial=('band:near-times/%s/%s' % (g['mode'], gcls)) if gcls != 'none' else False, sample=inp)
+    ctx.branches.add('time-gap:' + gcls)
     wrows = [[None if r[0] is None else bits(r[0]), r[2]] for r in g['rows'] if r[1] == 'main']
     mb = ctx.model('C20.bands', wrows, g['ps'])
+    # the samples of a time point are those of the rows with exactly that time: the comprehension above
+    # against the model's selection (guards the reference the figure is compared with)
+    for t in utimes:
+        ctx.agree('C20.samples_at_twin', samples[t], ctx.model('C20.samples_at', wrows, bits(t))[0],
+                  {**inp, 'time': t})
+    if gcls != 'none' and all(t >= 0.0 for t in utimes):
+        # how far apart the closest two time points are on the number line (in doubles), and whether a time
+        # mask with that tolerance would draw other limits than `==` (model, first probability): such a
+        # frame tells the two apart
+        tick = min(abs(bits(a) - bits(b)) for i, a in enumerate(utimes) for b in utimes[:i])
+        exact = ctx.model('C20.band_rows_by', 0, wrows, g['ps'][0])[0]
+        pooled = ctx.model('C20.band_rows_by', tick, wrows, g['ps'][0])[0]
+        ctx.extra.setdefault('near_times', {'frames': 0, 'pooling_changes_limits': 0})
+        ctx.extra['near_times']['frames'] += 1
+        if exact != pooled:
+            ctx.extra['near_times']['pooling_changes_limits'] += 1
+            ctx.nontrivial.add('band:near-times-discriminating/%s/%s' % (g['mode'], gcls))
     pkw = {a: keys[a] for a in ('time_key', 'obs_key', 'value_key')}
+    band_model = {}      # the model's limits per (time, probability): the same request for both figure classes
     for name in ('PDPredictivePlot', 'PKPredictivePlot'):
         pk = name.startswith('PK')
         kw = dict(pkw)
@@ -636,6 +705,9 @@ def band_case(ctx, chi, g, k):
             ts, lows, ups = dec[p]
             okt = [bits(t) for t in ts] == [bits(t) for t in utimes]
             ctx.spec('C20.band_times/' + name, okt, inp, {'p': p, 'drawn': ts, 'expected': utimes})
+            mpoly = [b for b in mb[1] if b[0] == p]
+            ctx.agree('C20.band_times/' + name, [bits(t) for t in ts],
+                      mpoly[0][1][:len(mpoly[0][1]) // 2] if mpoly else None, {**inp, 'p': p})
             if not okt:
                 continue
             for j, t in enumerate(utimes):
@@ -643,7 +715,9 @@ def band_case(ctx, chi, g, k):
                 lo, hi = lows[j], ups[j]
                 lo = None if math.isnan(lo) else lo
                 hi = None if math.isnan(hi) else hi
-                mo = ctx.model('C20.band', xs, p)
+                if (j, p) not in band_model:
+                    band_model[(j, p)] = ctx.model('C20.band', xs, p)
+                mo = band_model[(j, p)]
                 ctx.agree('C20.band_exists/' + name, [lo is not None, hi is not None],
                           [mo[0] is not None, mo[1] is not None], {**inp, 'p': p, 'time': t})
                 ctx.branches.add('limits:%d%d' % (lo is not None, hi is not None))
@@ -969,7 +1043,7 @@ def run_one(ctx, chi, kind, k):
 def run(ctx):
     chi = core.import_chi()
     corpus(ctx, chi)
-    n = {'quick': (85, 65, 85), 'thorough': (1250, 1000, 1150)}[ctx.tier]
+    n = {'quick': (85, 65, 85), 'thorough': (1250, 800, 1150)}[ctx.tier]
     for k in range(n[0]):
         run_one(ctx, chi, 'routing', k)
     for k in range(n[1]):
